@@ -138,6 +138,35 @@ PROPS = {
         "assumptions": ["live half (sockets actually bound, negotiated ALPN, idle close, reload_config) is in the e2e "
                         "correspondence when present"],
     },
+    "C01": {
+        "bins": ["codec", "e2e"],
+        "rule": "e2e: real client and server, four stream roles x payload lengths {0,1,2,63,64,16383,16384,65535..65537, "
+                "1-3 MiB, random} x write chunkings x read buffer sizes x 1..32 (quick) / ..200 (thorough) concurrent "
+                "streams x both runtimes; raw peer sends the preamble cut at every byte position with delays, with 0..3 "
+                "GREASE frames; the endpoint's own preamble recorded by a raw peer; codec: header / frame writers against "
+                "scripted sinks; non-trivial = distinct line with len > 0",
+        "extracted_keys": ["STREAM_WEBTRANSPORT_STREAM", "FRAME_WEBTRANSPORT_STREAM"],
+        "trusted": CODEC_TRUST + ["quinn: a QUIC stream is a reliable ordered byte pipe with FIN (packet loss / reordering not exhibited on loopback)"],
+        "assumptions": ["per-stream independence in value is by construction of the model (each task is a function of its own stream's bytes)"],
+    },
+    "C02": {
+        "bins": ["codec", "e2e"],
+        "rule": "e2e: Endpoint::connect x URLs (localhost / 127.0.0.1 / [::1], paths, queries) x extra header sets (static-table "
+                "names, Huffman-shrinking and expanding values, prefix-integer boundary lengths) x five server decisions; raw "
+                "server answering 20 status texts; raw client sending 15 malformed / well-formed requests; codec: header maps, "
+                "URL parts, responses for every status; non-trivial = distinct line",
+        "extracted_keys": ["REQUEST_HEADERS", "STATUS_SUCCESS_LO", "STATUS_SUCCESS_HI", "QPACK_STATIC_TABLE_ROWS"],
+        "trusted": CODEC_TRUST + ["url crate (parsed parts are inputs)", "httlib-huffman (modelled concretely)"],
+        "assumptions": ["the QPACK field-section round trip is tied by correspondence and Spec decoding of emitted bytes, not yet a theorem"],
+    },
+    "C06": {
+        "bins": ["e2e"],
+        "rule": "e2e: reset / stop / finish x {before data, mid-stream, after finish} x four roles x codes {0,63,64,16383,"
+                "16384,2^30-1,2^30,2^62-1,...} x both runtimes; non-trivial = distinct line",
+        "extracted_keys": [],
+        "trusted": ["quinn stream life-cycle (RESET_STREAM / STOP_SENDING / acknowledgement of FIN) is the specification record"],
+        "assumptions": ["a signal raised after the stream was finished and acknowledged has nothing left to act on"],
+    },
 }
 
 LEVEL_TEXT = {
@@ -180,6 +209,14 @@ LEVEL_TEXT = {
            "256 values, wrong lengths rejected, default identity validity = 14 d within the pinning limit",
     "C20": "Lean 4 theorems over the regenerated tables: the six bind presets map to the requested family / address / "
            "v6only action; idle timeout refused iff not representable; ALPN h3",
+    "C01": "Lean 4 theorems: the sender's preamble writer puts exactly type/signal + session id on the wire for every sink "
+           "behaviour; the receiver's preamble reader consumes exactly the preamble for every chunking and Pending pattern and "
+           "leaves every application byte (never swallows, never exposes framing); tied by e2e runs on real endpoints and a raw peer",
+    "C02": "Lean 4 theorems on the header maps: the built request is admitted unchanged with exact authority and "
+           "path-with-query, extras preserved, reserved names never overridden, verdict a function of the status alone "
+           "(all 500 codes), same session id both sides; wire form tied by correspondence (partial until the QPACK round trip is a theorem)",
+    "C06": "Lean 4 theorems: every mapping arm of the stream API carries every 62-bit code unchanged, finish succeeds iff "
+           "acknowledged, no two outcomes conflated; quinn's life-cycle is the trusted record; tied by e2e signal matrix",
 }
 
 LEVEL_NOTE = {
@@ -202,6 +239,9 @@ LEVEL_NOTE = {
            "their answers as the certificate view.",
     "C19": "rcgen / pem / tokio::fs are exercised by correspondence only (partial).",
     "C20": "OS / quinn apply the settings (partial); live half via e2e.",
+    "C01": "Trusted as C14 plus quinn's stream transport (partial: loss/reordering inside quinn not exhibited).",
+    "C02": "Trusted as C14 plus url, httlib-huffman; partial as stated.",
+    "C06": "quinn's stream life-cycle trusted (partial).",
 }
 
 
